@@ -52,10 +52,9 @@ META = {
    level="Proved for every draw: the sample is a fresh, valid, non-empty continuum with exactly one annotator 'Sampled_annotation i' per "
          "ground-truth annotator, each carrying exactly the units of one ground-truth annotator shifted by one pivot and wrapped by the "
          "continuum's length when they would start beyond the upper bound (labels kept); float pivots drawn while a segment is available lie "
-         "within the bounds and pairwise at least avg-unit-length/2 apart; integer pivots are whole numbers. Bounded (labelled): the "
-         "assumed draw, equal counts, integer timestamps.",
-   note="Known finding (int_pivot mode): truncation can leave the available segment, see known_findings.json. Assumed: RNG support model, "
-        "_random_from_segments, avg_length_unit > 0, sortedcontainers."),
+         "within the bounds and pairwise at least avg-unit-length/2 apart; integer pivots are whole numbers. The weighted draw _random_from_segments is proved over the RNG "
+         "model (its ValueError fallback is dead code). Bounded (labelled): equal counts, integer timestamps.",
+   note="Known finding (int_pivot mode): truncation can leave the available segment, see known_findings.json. Assumed: RNG support model, sortedcontainers."),
  "C03": dict(
    technique="contract-based deductive verification of the disorder kernel (ghost pair-fold, loop invariants, n(n-1)/2 exact) and of the "
              "disorder clauses of get_best_alignment / get_best_soft_alignment; remaining accessors by a bounded stand-in",
